@@ -290,7 +290,7 @@ fn kmed_matrix(rng: &mut Rng, m: usize, kind: u64) -> Vec<Vec<i64>> {
             let two_d = rng.chance(1, 2);
             let mut pts: Vec<(i64, i64)> = vec![];
             while pts.len() < m {
-                let p = (rng.range(0, 12), if two_d { rng.range(0, 12) } else { 0 });
+                let p = (rng.range(0, 3 * m as i64 + 3), if two_d { rng.range(0, 12) } else { 0 });
                 if !pts.contains(&p) {
                     pts.push(p);
                 }
